@@ -330,12 +330,45 @@ type TeletextOptions struct {
 // ReadFromTeletext parses a teletext content
 // http://www.etsi.org/deliver/etsi_en/300400_300499/300472/01.03.01_60/en_300472v010301p.pdf
 // http://www.etsi.org/deliver/etsi_i_ets/300700_300799/300706/01_60/ets_300706e01p.pdf
+// teletextReader fills every read request as long as data is available, since the demuxer expects whole
+// packets from a single Read (e.g. when it detects the packet size)
+type teletextReader struct {
+	r io.Reader
+}
+
+// teletextReadSeeker is a teletextReader that can be rewound
+type teletextReadSeeker struct {
+	teletextReader
+	s io.Seeker
+}
+
+func newTeletextReader(r io.Reader) io.Reader {
+	if s, ok := r.(io.Seeker); ok {
+		return &teletextReadSeeker{teletextReader: teletextReader{r: r}, s: s}
+	}
+	return &teletextReader{r: r}
+}
+
+// Read implements the io.Reader interface
+func (r *teletextReader) Read(p []byte) (n int, err error) {
+	if n, err = io.ReadFull(r.r, p); err == io.ErrUnexpectedEOF {
+		// Remaining bytes have been read, EOF is for the next read
+		err = nil
+	}
+	return
+}
+
+// Seek implements the io.Seeker interface
+func (r *teletextReadSeeker) Seek(offset int64, whence int) (int64, error) {
+	return r.s.Seek(offset, whence)
+}
+
 // TODO Update README
 // TODO Add tests
 func ReadFromTeletext(r io.Reader, o TeletextOptions) (s *Subtitles, err error) {
 	// Init
 	s = &Subtitles{}
-	var dmx = astits.NewDemuxer(context.Background(), r)
+	var dmx = astits.NewDemuxer(context.Background(), newTeletextReader(r))
 
 	// Get the teletext PID
 	var pid uint16
